@@ -7,6 +7,11 @@ pub mod c09;
 pub mod c10;
 pub mod c11;
 pub mod c12;
+pub mod c13;
+pub mod c14;
+pub mod c15;
+pub mod c16;
+pub mod c17;
 #[cfg(feature = "jit")]
 pub mod pair;
 #[cfg(feature = "jit")]
@@ -14,21 +19,32 @@ pub mod c01;
 
 use crate::{crash_is_harness_failure, Monitor};
 
+macro_rules! mon {
+  ($name:expr, $m:ident) => {
+    Monitor { name: $name, run: $m::run, resumable: true, on_crash: $m::on_crash }
+  };
+}
+
 pub fn registry() -> Vec<Monitor> {
   let _ = crash_is_harness_failure;
   let mut v = vec![
-    Monitor { name: "c05", run: c05::run, resumable: true, on_crash: c05::on_crash },
-    Monitor { name: "c06", run: c06::run, resumable: true, on_crash: c06::on_crash },
-    Monitor { name: "c07", run: c07::run, resumable: true, on_crash: c07::on_crash },
-    Monitor { name: "c08", run: c08::run, resumable: true, on_crash: c08::on_crash },
-    Monitor { name: "c09", run: c09::run, resumable: true, on_crash: c09::on_crash },
-    Monitor { name: "c10", run: c10::run, resumable: true, on_crash: c10::on_crash },
-    Monitor { name: "c11", run: c11::run, resumable: true, on_crash: c11::on_crash },
-    Monitor { name: "c12", run: c12::run, resumable: true, on_crash: c12::on_crash },
+    mon!("c05", c05),
+    mon!("c06", c06),
+    mon!("c07", c07),
+    mon!("c08", c08),
+    mon!("c09", c09),
+    mon!("c10", c10),
+    mon!("c11", c11),
+    mon!("c12", c12),
+    mon!("c13", c13),
+    mon!("c14", c14),
+    mon!("c15", c15),
+    mon!("c16", c16),
+    mon!("c17", c17),
   ];
   #[cfg(feature = "jit")]
   {
-    v.push(Monitor { name: "c01", run: c01::run, resumable: true, on_crash: c01::on_crash });
+    v.push(mon!("c01", c01));
   }
   v
 }
